@@ -236,6 +236,9 @@ class SimFS(object):
             return False
         if rp == self.guard_root or rp.startswith(self.guard_root + os.sep) or rp == os.devnull:
             return False
+        # pcbasic.config keeps its own user directories on tmpfs (see sim.kernel)
+        if rp == K._HOME or rp.startswith(K._HOME + os.sep):
+            return False
         self.refused += 1
         self.w.stats['guard_refused_outside_scratch'] += 1
         return True
